@@ -99,9 +99,9 @@ def r8_1(U, rep, tier):
                 construct='inverse(world_to_joint(forward(q, qd))) == (q, qd)')
 
 
-def r8_2(U, rep):
+def r8_2(U, rep, entries=('step', 'init')):
   for backend in ('spring', 'positional'):
-    for entry in ('step', 'init'):
+    for entry in entries:
       f = U.func('brax.%s.pipeline.%s' % (backend, entry))
       avn.field_mode(7)
       try:
